@@ -243,6 +243,11 @@ def _res_map(ctx, a, c):
     return ok(call_closure(ctx, a[1], [r.f[0]])) if r.variant == "Ok" else r
 
 
+@model("Box::pin", "Box::new", doc="alloc: boxing preserves the value")
+def _box_identity(ctx, a, c):
+    return a[0]
+
+
 @model("Result::unwrap_or_else", doc="core: Ok(x) => x, Err(e) => f(e)")
 def _result_unwrap_or_else(ctx, a, c):
     r = a[0]
